@@ -29,14 +29,24 @@ var c13MapOrderFn func(r *chk.Run)
 // ---------------------------------------------------------------- (b) instance interleaving under a cooperative scheduler
 
 type coSched struct {
-	x      *explore.Ctx
-	resume []chan struct{}
-	events chan coEvent
+	x       *explore.Ctx
+	resume  []chan struct{}
+	events  chan coEvent
+	current int // instance being run (valid while an instance goroutine executes)
+	hook    func(*coSched) // called once the scheduler is set up, before the first instance runs
 }
 
 type coEvent struct {
 	id   int
 	done bool
+}
+
+// yieldCurrent yields on behalf of whichever instance is running (used by hooks inside the library,
+// which do not know the instance they run for).
+func (s *coSched) yieldCurrent() {
+	if s.current >= 0 {
+		s.yield(s.current)
+	}
 }
 
 func (s *coSched) yield(id int) {
@@ -60,6 +70,10 @@ func (s *coSched) run(bodies []func(yield func())) {
 		}(i)
 	}
 	running := -1
+	s.current = -1
+	if s.hook != nil {
+		s.hook(s)
+	}
 	for len(enabled) > 0 {
 		var order []int
 		kind := "schedfree" // the running instance is not enabled: switching costs nothing
@@ -74,6 +88,7 @@ func (s *coSched) run(bodies []func(yield func())) {
 		}
 		next := order[s.x.Choose(kind, len(order))]
 		running = next
+		s.current = next
 		s.resume[next] <- struct{}{}
 		ev := <-s.events
 		if ev.done {
@@ -169,8 +184,35 @@ func c13Workloads() []*model.Content {
 	}
 }
 
-func c13Interleave(nInst int) explore.Body {
-	ws := c13Workloads()
+// c13SchedHook, when set (map-order binary), is installed on every scheduler: it wires the
+// library's shared-state yield points to the scheduler.
+var c13SchedHook func(*coSched)
+var c13SchedDone func()
+
+// c13CollidingWorkloads are used where the library's own shared state is the subject: every pair of
+// instances builds multi-key maps with different keys, writes attachments and messages of different
+// sizes under different compressions, so that any buffer, pool or table shared between instances
+// is in use by both at once.
+func c13CollidingWorkloads() []*model.Content {
+	kv := func(keys ...string) []ref.KV {
+		var out []ref.KV
+		for i, k := range keys {
+			out = append(out, ref.KV{K: k, V: fmt.Sprint("v", i, k)})
+		}
+		return out
+	}
+	return []*model.Content{
+		model.Fixed(model.Headers[1], model.Sch(model.S1), model.Chn(model.C1), model.Msg(1, 5, 40, 0), model.Met(model.D3), model.Msg(1, 3, 70, 0)),
+		model.Fixed(model.Headers[0], model.Chn(&ref.Channel{ID: 9, Topic: "t9", MessageEncoding: "q", Metadata: kv("x", "a", "m", "zz")}), model.Msg(9, 7, 30, 0), model.Att(model.A1),
+			model.Met(&ref.Metadata{Name: "other", Metadata: kv("q", "r", "s")}), model.Msg(9, 8, 3, 0)),
+		model.Fixed(model.Headers[1], model.Sch(model.S2), model.Chn(&ref.Channel{ID: 4, SchemaID: model.S2.ID, Topic: "t4", Metadata: kv("k1", "k0")}), model.Msg(4, 1, 80, 0), model.Msg(4, 2, 0, 0),
+			model.Met(&ref.Metadata{Name: "third", Metadata: kv("b", "a")})),
+	}
+}
+
+func c13Interleave(nInst int) explore.Body { return c13InterleaveOn(nInst, c13Workloads()) }
+
+func c13InterleaveOn(nInst int, ws []*model.Content) explore.Body {
 	cfgs := []gow.Config{{CRC: true, Chunked: true, ChunkSize: 64}, {CRC: true, Chunked: true, ChunkSize: 32, Compression: "lz4"}, {CRC: false}, {CRC: true, Chunked: true, ChunkSize: 48, Compression: "zstd"}}
 	solo := make([][]byte, len(ws))
 	for i := range ws {
@@ -194,8 +236,11 @@ func c13Interleave(nInst int) explore.Body {
 			bodies = append(bodies, writerInstance(ws[wi], cfgs[wi%len(cfgs)], &outs[i]))
 			what = append(what, fmt.Sprintf("writer %d (%s)", wi, cfgs[wi%len(cfgs)]))
 		}
-		s := &coSched{x: x}
+		s := &coSched{x: x, hook: c13SchedHook}
 		s.run(bodies)
+		if c13SchedDone != nil {
+			c13SchedDone()
+		}
 		x.Ops += 6 * nInst
 		x.Note = func() any { return map[string]any{"instances": what, "schedule": x.Choices()} }
 		x.State = explore.Hash([]byte(fmt.Sprint(x.Choices())))
